@@ -57,6 +57,46 @@ def shapes(rng, g, w):
     ]
 
 
+def fp_frontend_case(cls, rng, keep, res):
+    import claripy
+
+    from vf.mon import truth
+
+    sort = rng.choice([claripy.FSORT_FLOAT, claripy.FSORT_DOUBLE])
+    f = claripy.FPS("ff" + str(sort.length), sort, explicit_name=True)
+    g = claripy.FPS("fg" + str(sort.length), sort, explicit_name=True)
+    k = claripy.FPV(rng.choice([0.0, -0.0, 1.0, -1.0, float("inf"), float("-inf"), float("nan"), 2.5]), sort)
+    s = truth.wrap_frontend(cls())
+    cons = [rng.choice([f == k, k == f, claripy.fpLEQ(f, k), claripy.fpIsNaN(f), claripy.fpAbs(f) == claripy.fpAbs(k), claripy.Not(f != k)])]
+    if rng.random() < 0.4:
+        cons.append(rng.choice([g == f, claripy.fpLT(g, f), claripy.fpIsInf(g)]))
+    s.add(cons)
+    if rng.random() < 0.5:
+        try:
+            s.satisfiable()
+            s.eval(f, 2)
+        except claripy.errors.ClaripyError:
+            pass
+    one = claripy.FPV(1.0, sort)
+    rm = claripy.fp.RM.default()
+    qs = [
+        f.raw_to_bv() == k.raw_to_bv(), f.raw_to_bv()[sort.length - 1] == 1, f.raw_to_bv()[sort.length - 1] == 0, claripy.fpLT(claripy.fpDiv(rm, one, f), claripy.FPV(0.0, sort)),
+        claripy.fpGT(claripy.fpDiv(rm, one, f), claripy.FPV(0.0, sort)), f == k, f != k, claripy.fpIsNaN(f), claripy.fpIsInf(f), f == claripy.fpNeg(k), claripy.fpNeg(f).raw_to_bv() == claripy.fpNeg(k).raw_to_bv(),
+        claripy.fpEQ(f, f), claripy.fpLEQ(f, k), claripy.fpGEQ(f, k), g == f, claripy.fpAbs(f).raw_to_bv() == claripy.fpAbs(k).raw_to_bv(),
+    ]
+    for e in qs:
+        for which in ("is_true", "is_false"):
+            for _round in range(2):
+                try:
+                    getattr(s, which)(e)
+                except claripy.errors.ClaripyError as exn:
+                    res.count("frontend_raised:" + type(exn).__name__)
+    keep += qs + cons
+    res.count("frontend_histories")
+    res.count("frontend_fp_histories")
+    res.count("frontend_class:" + cls.__name__)
+
+
 def run_shard(spec, res):
     import claripy
 
@@ -118,6 +158,13 @@ def run_shard(spec, res):
             cls = classes[it % len(classes)]
             w = rng.choice([4, 8, 32])
             g = G.Gen(rng, nvars=2, widths=[w], surface=False, allow_div=False)
+            if it % 5 == 3 and cls not in (claripy.SolverStrings, claripy.SolverConcrete, claripy.SolverVSA, claripy.SolverHybrid):
+                # floats: IEEE equality with a constant is not identity (+0.0 == -0.0, NaN != NaN)
+                try:
+                    fp_frontend_case(cls, rng, keep, res)
+                except claripy.errors.ClaripyError as exn:
+                    res.count("frontend_setup_raised:" + type(exn).__name__)
+                continue
             try:
                 s = truth.wrap_frontend(cls())
                 cons = []
